@@ -549,7 +549,99 @@ def integration_probe(scenario):
     return simnet.run(go)
 
 
+def name_forms_probe(name, address):
+    """ReconnectLogic(name=...) for a client addressed by `address`: after a failed attempt a matching mDNS record for the device
+    (named by `name`, or - when no name is given - by the host part of a local address) starts the next attempt at once."""
+    def go(loop):
+        async def inner():
+            import zeroconf
+            from zeroconf import DNSPointer
+            from zeroconf.const import _TYPE_PTR, _CLASS_IN
+            from aioesphomeapi.core import APIConnectionError
+            from aioesphomeapi.reconnect_logic import ReconnectLogic
+            run = Run(loop)
+            run.cli.address = address
+
+            async def cb(*a):
+                pass
+            rl = ReconnectLogic(client=run.cli, on_connect=cb, on_disconnect=cb, on_connect_error=cb, name=name)
+            await rl.start()
+            await simnet.drain(loop)
+            cli = run.cli
+            if cli.pending is None:
+                return "no first attempt"
+            cli.pending[1].set_exception(APIConnectionError("nope"))
+            await simnet.drain(loop)
+            n0 = len(cli.attempt_times)
+            dev = name or address.partition(".")[0]
+            rec = DNSPointer("_esphomelib._tcp.local.", _TYPE_PTR, _CLASS_IN, 1000, f"{dev}._esphomelib._tcp.local.")
+            for listener in list(run.aiozc.zeroconf.listeners):
+                listener.async_update_records(None, 0.0, [zeroconf.RecordUpdate(rec, None)])
+            await simnet.drain(loop)
+            got = len(cli.attempt_times) - n0
+            await rl.stop()
+            await simnet.drain(loop)
+            for t in asyncio.all_tasks(loop):
+                if t is not asyncio.current_task():
+                    t.cancel()
+            return f"{got} attempt(s) at once, {len(run.aiozc.zeroconf.listeners)} listener(s) left"
+        return inner()
+    return simnet.run(go)
+
+
+def long_failure_run(n):
+    """n consecutive failed attempts: after every single one the next attempt comes, min(round(1.8^k), 60) s later."""
+    def go(loop):
+        async def inner():
+            from aioesphomeapi.core import APIConnectionError
+            from aioesphomeapi.reconnect_logic import ReconnectLogic
+            run = Run(loop)
+            cli = run.cli
+            await run.rl.start()
+            await simnet.drain(loop)
+            for k in range(1, n + 1):
+                if cli.pending is None:
+                    return k, "no attempt in flight"
+                n_att = len(cli.attempt_times)
+                t_fail = run.units()
+                cli.pending[1].set_exception(APIConnectionError("nope"))
+                await simnet.drain(loop)
+                for _ in range(3):
+                    if len(cli.attempt_times) != n_att:
+                        break
+                    nt = loop.next_timer()
+                    if nt is None:
+                        break
+                    await simnet.advance(loop, to=nt + simnet.CLOCK_BASE)
+                if len(cli.attempt_times) == n_att:
+                    return k, "no attempt after this failure"
+                gap = cli.attempt_times[-1] - t_fail
+                want = min(round(1.8 ** min(k, 10)), 60) * U
+                if gap != want:
+                    return k, f"next attempt after {gap / U} s, expected {want / U} s"
+            for t in asyncio.all_tasks(loop):
+                if t is not asyncio.current_task():
+                    t.cancel()
+            return None
+        return inner()
+    return simnet.run(go)
+
+
 def run_integration_probes(rep):
+    for name, address in (("dev", "10.0.0.1"), (None, "kitchen.local"), ("", "kitchen.local"), (None, "kitchen"), ("", "kitchen"), ("dev", "kitchen.local")):
+        res = name_forms_probe(name, address)
+        rep.case(("name-forms", name, address), True, sample={"name_forms": [name, address], "result": res})
+        rep.bump("probe:name-forms")
+        if not res.startswith("1 attempt(s) at once, 0 listener"):
+            rep.violation("C18/record-ignored", f"ReconnectLogic(name={name!r}) for a client addressed {address!r}: one attempt failed, then a matching mDNS record for the device "
+                          f"arrives while it is waiting: {res} (expected one attempt at once, listener removed by stop())",
+                          {"kind": "name-forms", "name": name, "address": address})
+    bad = long_failure_run(1300)
+    rep.case(("long-failure-run", 1300), True, sample={"long_failure_run": 1300, "problem": bad})
+    rep.bump("probe:long-failure-run")
+    if bad is not None:
+        rep.violation("C18/no-retry" if "no attempt" in bad[1] else "C18/backoff", f"consecutive failed attempts: at failure number {bad[0]}: {bad[1]}",
+                      {"kind": "long-failure-run", "failures": 1300})
     out = integration_probe("drop")
     replay = {"kind": "integration-probe", "scenario": "drop"}
     rep.case(("integration", "drop"), True, sample={"probe": replay, "result": out})
@@ -658,6 +750,15 @@ def run(rep, tier, seed):
 
 def replay(path):
     d = json.loads(open(path).read())["replay"]
+    if d.get("kind") == "name-forms":
+        print(name_forms_probe(d["name"], d["address"]))
+        return 0
+    if d.get("kind") == "long-failure-run":
+        print(long_failure_run(d["failures"]))
+        return 0
+    if d.get("kind") == "integration-probe":
+        print(integration_probe(d["scenario"]))
+        return 0
     if d.get("kind") == "slow-hook-probe":
         common.setup_impl_path()
         print(slow_hook_probe(d["failures"], d["record_during_hook_of_failure"], d["stage"]))
